@@ -402,6 +402,55 @@ func c01SharedIDAndHostClose(rep *Report, f *Fixture, n int) {
 				t.Close()
 			}
 		}
+		// (1b) two websocket connections that name the same connection id at the same time are two
+		// tunnels: each walks its own sequence and reaches its own host
+		{
+			f.ResetBackends()
+			id := NewConnID("ww")
+			ta := open("ws", id)
+			if ta == nil {
+				rep.Inconclusive("same-id websocket probe: first tunnel not established")
+			} else {
+				envB := f.Env("ws")
+				tb, _, _ := envB.OpenTunnel(id)
+				var stB []uint32
+				if tb != nil {
+					for k, s := range []Sym{f.SymHS(true), f.SymTC("good", f.H2.Addr()), f.SymTA(), f.SymCC(f.H2.Addr())} {
+						tb.Send(s.Wire)
+						if got, _ := tb.WaitPackets(k+1, envB.wd()); got < k+1 {
+							stB = append(stB, 0xFFFFFFFF)
+							break
+						}
+						st, _ := LenientStatus(tb.Snapshot().Packets[k].Raw)
+						stB = append(stB, st)
+					}
+					ma, mb := []byte(fmt.Sprintf("first-tunnel-%d", i)), []byte(fmt.Sprintf("second-tunnel-%d", i))
+					ta.Send(Data(ma))
+					tb.Send(Data(mb))
+					time.Sleep(150 * time.Millisecond)
+					f.H1.Barrier()
+					f.H2.Barrier()
+					got1, got2 := "", ""
+					for _, bc := range f.H1.Conns() {
+						got1 += string(bc.Received())
+					}
+					for _, bc := range f.H2.Conns() {
+						got2 += string(bc.Received())
+					}
+					okB := len(stB) == 4
+					for _, st := range stB {
+						okB = okB && st == 0
+					}
+					rep.Eval(HashStr("same-id-ws", stB, got1 == string(ma), got2 == string(mb)))
+					rep.Count("same_id_websocket_probes", 1)
+					if !okB || got1 != string(ma) || got2 != string(mb) {
+						rep.Violate("C01/tunnels-sharing-an-id-interfere/websocket", fmt.Sprintf("two websocket tunnels naming the same connection id: the second one's steps were answered %x; host 1 got %q (want %q), host 2 got %q (want %q)", stB, trunc(got1, 60), ma, trunc(got2, 60), mb), nil)
+					}
+					tb.Close()
+				}
+				ta.Close()
+			}
+		}
 		// (2)
 		tr := Transports()[i%len(Transports())]
 		f.ResetBackends()
